@@ -44,6 +44,12 @@ def check_dataset(r, out, corr):
         return
     step, t0, g = plan['step'], plan['t0'], plan['grid_step']
     sigma = plan['sigma']
+    # the master curves are observed through the views: they must show exactly what the tables hold
+    bad_views = CC.view_table_complaints(r)
+    for msg in bad_views:
+        out.violation('oracle', 'master-curve view <> tables: ' + msg, case=case)
+    if bad_views:
+        return
     ep = lambda i: t0 + i * step           # noqa: E731
     # --- classified intervals are the planted pieces and rises
     inter = sorted((a, b) for a, t, b in r['zeta_interval'] if t == 'interstorm')
@@ -153,6 +159,8 @@ def run_cases(plans, out, label):
         out.count('gap=%s' % bool(r['truth'].get('missing')))
         out.count('light rain after a storm %s' % ('= storm threshold exactly' if plan.get('light_equal') else '< storm threshold'))
         out.count('two recessions from the same highest level=%s' % bool(plan.get('tie_top')))
+        if plan.get('top_cell'):
+            out.count('highest level positive and off the grid lines, top grid level crossed by >= 2 rises and >= 2 recessions')
         check_dataset(r, out, corr)
     bad, errs, _ = C.run_case_shards(
         PROP, label, PRE, 'head_mapping * Q * list Q',
@@ -172,10 +180,14 @@ def run(ctx, out):
     # than" is strict); every 4th: two recessions start from exactly the same highest level (tie for the reference)
     plans = [CC.make_plan(C.rng_for(seed, PROP, k), gaps=True, odd_steps=True,
                           light_equal=(k % 3 == 0), tie_top=(k % 4 == 1)) for k in range(n)]
+    # plus records that reach above the surface: highest level positive and off the grid lines, the top level of the
+    # grid crossed by >= 2 rises and >= 2 recessions (own random streams)
+    plans += [CC.make_plan(C.rng_for(seed, PROP, 'top', k), gaps=True, odd_steps=True, top_cell=True, noise=False)
+              for k in range(max(6, n // 8))]
     run_cases(plans, out, 'cl')
     out.rule = ('Synthetic records from a planted truth (recession curve piecewise linear on the sampling lattice, constant '
-                'specific yield; 3-7 storms; time steps 10/15/20/30/60 min and 90/100/460/3900 s; 40% with a gap in the water-level record in mid-recession; grid steps 0.5/1/2/2.5 mm; 1/3 with the rain step after each storm exactly at the storm threshold; 1/4 with two recessions starting from exactly the same highest level) through the five CLI '
-                'commands; every table row compared with the truth. Non-trivial: >= 3 recession pieces and >= 2 rises '
+                'specific yield; 3-7 storms; time steps 10/15/20/30/60 min and 90/100/460/3900 s; 40% with a gap in the water-level record in mid-recession; grid steps 0.5/1/2/2.5 mm; 1/3 with the rain step after each storm exactly at the storm threshold; 1/4 with two recessions starting from exactly the same highest level; plus 1/8 more whose highest level is positive, off the grid lines, with the top grid level crossed by >= 2 rises and >= 2 recessions) through the five CLI '
+                'commands; every table row compared with the truth, the master-curve views compared with the tables. Non-trivial: >= 3 recession pieces and >= 2 rises '
                 'assembled, >= 3 levels; distinct by event plan.')
     out.samples = [dict(plan_events=plans[0]['events'], step=plans[0]['step'], grid=plans[0]['grid_step'], sigma=plans[0]['sigma'])]
     out.assumptions += ['tolerance 1e-6 relative on times/depths (brentq, float sums)']
